@@ -277,3 +277,46 @@ def heater_reads_the_items_the_tables_declare():
     ensures("flag-and-temperature-item-names",
             both(C.KEY_HEATING == "Heating", C.KEY_COOLINGDOWN == "CoolingDown", C.KEY_SETPOINT_G == "SetpointG",
                  C.KEY_REAL_SETPOINT_G == "RealSetPointG", C.KEY_DISPLAYED_TEMP_G == "DisplayedTempG", C.KEY_TEMP_UNITS == "TempUnits"))
+
+
+# ------------------------------------------------------ the heater's constructor picks up every item the pack declares
+class HeaterSpa:
+    def __init__(self, accessors):
+        self.accessors = accessors
+
+
+class HeaterFacade:
+    unique_id = "SPA"
+    name = "spa"
+
+    def __init__(self, accessors):
+        self._spa = HeaterSpa(accessors)
+
+
+class ItemStub(FlagStruct):
+    pass
+
+
+@harness(prop="C14", target="geckolib.automation.heater:GeckoWaterHeater.__init__", name="heater_uses_every_flag_the_pack_declares")
+def heater_uses_every_flag_the_pack_declares(has_h: bool, has_c: bool, block: bytes):
+    """packs declare the heating flag, the cooling flag, both (inXM) or neither: the heater watches exactly the declared ones"""
+    from geckolib.driver.accessor import GeckoBoolStructAccessor
+    requires(len(block) == 1024)
+    s = FlagStruct(block)
+    acc = {"TempUnits": GeckoEnumStructAccessor(s, "TempUnits", 0, None, ["F", "C"], None, None, "ALL"),
+           "SetpointG": GeckoTempStructAccessor(s, "SetpointG", 2, "ALL"),
+           "DisplayedTempG": GeckoTempStructAccessor(s, "DisplayedTempG", 4, None),
+           "RealSetPointG": GeckoTempStructAccessor(s, "RealSetPointG", 6, None)}
+    if has_h:
+        acc["Heating"] = GeckoBoolStructAccessor(s, "Heating", 8, 1, None)
+    if has_c:
+        acc["CoolingDown"] = GeckoBoolStructAccessor(s, "CoolingDown", 8, 2, None)
+    s.accessors = acc
+    h = GeckoWaterHeater(HeaterFacade(acc))
+    ensures("heating-flag-watched-iff-declared", (h._heating_action_sensor is not None) == has_h)
+    ensures("cooling-flag-watched-iff-declared", (h._cooling_action_sensor is not None) == has_c)
+    if has_h:
+        ensures("heating-sensor-reads-the-heating-item", h._heating_action_sensor.accessor is acc["Heating"])
+    if has_c:
+        ensures("cooling-sensor-reads-the-cooling-item", h._cooling_action_sensor.accessor is acc["CoolingDown"])
+    ensures("heater-present", h.is_present)
